@@ -37,7 +37,7 @@ TParse ==
         \* C02: when the driver rendered the vector from an assignment, the vector must spell it
         /\ (ev.want.k = "some" /\ ev.via = "argv") => m = [oc |-> "ok", st |-> ev.want.st, pos |-> ev.want.pos]
         /\ cfg' = c /\ env' = ev.env /\ argv' = ev.argv
-        /\ hist' = Append(hist, [argv |-> ev.argv, res |-> obs, why |-> "", via |-> ev.via, env |-> ev.env])
+        /\ hist' = Append(hist, [argv |-> ev.argv, res |-> obs, why |-> "", via |-> ev.via, env |-> ev.env, letters |-> [i \in 1..Len(c.decl) |-> c.decl[i].letter]])
         /\ phase' = (IF ev.oc = "ok" THEN "done" ELSE "error")
         /\ reason' = (IF ev.oc = "ok" THEN "" ELSE "Unknown")
         /\ positionals' = ev.pos
